@@ -268,7 +268,15 @@ func runSolver(ctx context.Context, s solverSpec, file string, timeout int) solv
 	cmd.Run()
 	secs := time.Since(start).Seconds()
 	text := out.String()
-	first := strings.TrimSpace(strings.SplitN(text, "\n", 2)[0])
+	first := ""
+	for _, l := range strings.Split(text, "\n") {
+		l = strings.TrimSpace(l)
+		if l == "" || strings.HasPrefix(l, "WARNING") {
+			continue // solver warnings (e.g. an unusable pattern) precede the verdict
+		}
+		first = l
+		break
+	}
 	v := "unknown"
 	switch {
 	case first == "unsat":
